@@ -56,7 +56,11 @@ class Parser(ParseContext):
 
         config = ParserConfig.new(config, **settings)
         srcconfig = ParserConfig.new(getattr(rulesource, '_config', None))
-        config = srcconfig.override_config(config)
+        # NOTE: only what differs from the defaults was asked for by the caller;
+        #   defaults must not hide the configuration of the rule source
+        #   (the directives of the grammar, like @@parseinfo)
+        asked = {name: value for name, value, _ in config.diff(ParserConfig())}
+        config = srcconfig.override(**asked)
 
         super().__init__(config=config)
 
